@@ -3481,6 +3481,8 @@ RegistryT<ArgsT<TG_, TSL_, TRL_, NCC_, NOC_, NOU_, TRO_ HFSM2_IF_SERIALIZATION(,
 
 	Parent parent;
 	bool viaOrthogonal = false;
+	Prong* deferred = nullptr;
+	Prong deferredProng = INVALID_PRONG;
 
 	for (parent = stateParents[request.destination];
 		 parent;
@@ -3494,6 +3496,10 @@ RegistryT<ArgsT<TG_, TSL_, TRL_, NCC_, NOC_, NOU_, TRO_ HFSM2_IF_SERIALIZATION(,
 				// re-entering it as a whole would re-resolve the untouched ones as well
 				if (requested != parent.prong)
 					requested  = INVALID_PRONG;
+
+				// needed after all if an ancestor ends up (re-)entering this region
+				deferred	  = &requested;
+				deferredProng = parent.prong;
 			} else
 				requested = parent.prong;
 
@@ -3524,6 +3530,11 @@ RegistryT<ArgsT<TG_, TSL_, TRL_, NCC_, NOC_, NOU_, TRO_ HFSM2_IF_SERIALIZATION(,
 				active     != parent.prong)
 			{
 				requested   = parent.prong;
+
+				if (deferred) {
+					*deferred = deferredProng;
+					deferred  = nullptr;
+				}
 			}
 			else {
 				parent = forkParent(parent.forkId);
